@@ -64,6 +64,7 @@ class Model:
         self.support = None  # auto cell ratio support: None (undetermined) | True | False
         self.style_support = None  # iterm2-style support once determined for good (None: not yet)
         self.kitty_support = None  # kitty-style support once determined for good
+        self.style_term = ""  # terminal identity the iterm2 style goes by (set when it finds itself supported)
         self.env_tp = None  # inherited (TERM_PROGRAM, TERM_PROGRAM_VERSION)
         self.cached_while_disabled = False
 
@@ -163,7 +164,7 @@ def run_history(seed, env, res, probes, allow_subprocess=False, env_tp=None):
     sizes_seen = []
     steps = rnd.randint(5, 40)
     for step in range(steps):
-        op = rnd.choice(["resize", "resize", "resize_back", "resize_back", "pixels", "swap_on", "swap_off", "q_on", "q_off", "ratio", "xt", "read", "read", "read", "read_ratio", "probe", "probe", "probe_resize", "read_colours", "read_name", "read_on_kitty", "read_support", "read_kitty_support", "read_interrupted"] + (["subprocess"] if allow_subprocess else []))
+        op = rnd.choice(["resize", "resize", "resize_back", "resize_back", "pixels", "swap_on", "swap_off", "q_on", "q_off", "ratio", "xt", "read", "read", "read", "read_ratio", "probe", "probe", "probe_resize", "read_colours", "read_name", "read_on_kitty", "read_support", "read_forced_render", "read_kitty_support", "read_interrupted"] + (["subprocess"] if allow_subprocess else []))
         ops.append(op)
         if m.term[:2] not in sizes_seen:
             sizes_seen.append(m.term[:2])
@@ -322,25 +323,53 @@ def run_history(seed, env, res, probes, allow_subprocess=False, env_tp=None):
             if got != want:
                 fail("stale-query-result", "TextImage._is_on_kitty() = %r, a fresh computation gives %r (terminal says %r; queries %s, name obtained while %s)" % (got, want, p.name, "enabled" if m.queries else "disabled", slot))
                 return
-        elif op == "read_support":
+        elif op in ("read_support", "read_forced_render"):
             # iterm2-style support follows from the terminal's name (WezTerm / iTerm2:
             # supported), which is the inherited TERM_PROGRAM while queries are disabled: a
             # finding made with queries enabled may be kept for good, one made while they
             # were disabled must not survive enable_queries()
             from term_image.image import ITerm2Image
 
-            got = ITerm2Image.is_supported()
-            res.count("reads compared with the model")
             slot = m.memo.get("read_name")
-            if m.style_support is not None:
-                want = m.style_support  # determined with queries enabled
-            else:
-                want = m.lib_name(p)[0] in ("wezterm", "iterm2")
+
+            def expect_support():
+                if m.style_support is not None:
+                    return m.style_support  # determined with queries enabled
+                name = m.lib_name(p)[0]
+                want = name in ("wezterm", "iterm2")
+                m.style_term = name if want else ""  # the identity the style now goes by
                 if m.queries:
                     m.style_support = want
-            if got != want:
-                fail("stale-query-result", "ITerm2Image.is_supported() = %r, a fresh determination gives %r (terminal says %r, TERM_PROGRAM %r; queries %s, name obtained while %s)" % (got, want, p.name, m.env_tp and m.env_tp[0], "enabled" if m.queries else "disabled", slot))
-                return
+                return want
+
+            if op == "read_support":
+                got = ITerm2Image.is_supported()
+                want = expect_support()
+                res.count("reads compared with the model")
+                if got != want:
+                    fail("stale-query-result", "ITerm2Image.is_supported() = %r, a fresh determination gives %r (terminal says %r, TERM_PROGRAM %r; queries %s, name obtained while %s)" % (got, want, p.name, m.env_tp and m.env_tp[0], "enabled" if m.queries else "disabled", slot))
+                    return
+            else:
+                # the documented way to use a style the terminal is not known to support:
+                # what is rendered then still depends on the identity the style goes by
+                # (WezTerm: cells erased beneath the image) -- a cached terminal fact too
+                from PIL import Image
+
+                acc = m.acceptable_cell()
+                ITerm2Image.forced_support = True
+                try:
+                    im = ITerm2Image(Image.new("RGB", (2, 2)), width=2, height=1)
+                    expect_support()  # (instantiation determines support first)
+                    out = format(im, "1.1+W")
+                    im.close()
+                finally:
+                    ITerm2Image.forced_support = False
+                m.note_read(set(acc))  # (a graphics render reads the cell size: one of these is now held)
+                res.count("reads compared with the model")
+                erased = "\x1b[2X" in out
+                if erased != (m.style_term == "wezterm"):
+                    fail("stale-query-result", "an iterm2 render with forced support %s the cells beneath it (WezTerm work-around); a fresh determination finds the identity %r (terminal says %r, TERM_PROGRAM %r; queries %s, name obtained while %s)" % ("erases" if erased else "does not erase", m.style_term, p.name, m.env_tp and m.env_tp[0], "enabled" if m.queries else "disabled", slot))
+                    return
         elif op == "read_kitty_support":
             # kitty-style support needs the terminal's reply: never while queries are
             # disabled, and what was found then must not survive enable_queries()
@@ -463,9 +492,10 @@ class YieldInjector:
         self.events = 0
 
     def codes(self):
+        import term_image
         from term_image import utils
 
-        return [utils.get_fg_bg_colors.__code__, inspect.unwrap(utils.get_cell_size).__code__, self_ts_code()]
+        return [utils.get_fg_bg_colors.__code__, inspect.unwrap(utils.get_cell_size).__code__, self_ts_code(), term_image.enable_queries.__code__]
 
     def cb(self, code, line):
         rnd = getattr(self.local, "rnd", None)
@@ -587,8 +617,64 @@ def stress_round(seed, env, res, probes):
     probes.c_probe("race", k=seed % 7)
     res.count("invalidations racing with a first call")
     ran = sum(probes.c_calls.values())
+    if ran == 2:
+        enable_race(seed, env, res, case)
     if ran != 2:
         res.violation("C15:invalidation-lost", "an invalidation issued while a first call was inside the memoized body was lost: the body ran %d time(s) over [call (held inside the body), invalidate, call]; the value computed before the invalidation is still served" % ran, case)
+
+
+def enable_race(seed, env, res, case):
+    """enable_queries() racing with calls of the memoized query helpers from other threads:
+    once it has returned, nothing obtained while queries were disabled may be served -- a
+    call that saw them disabled must not be able to slip its result in behind the
+    invalidation."""
+    import term_image
+    from term_image import utils
+
+    p = env.persona
+    term_image.enable_queries()
+    term_image.disable_queries()  # (memos empty, queries off)
+    n = 2 + seed % 3
+    barrier = threading.Barrier(n + 1)
+    done = threading.Event()
+    errors = []
+
+    def reader():
+        try:
+            barrier.wait(5)
+            while not done.is_set():
+                utils.get_terminal_name_version()
+                utils.get_fg_bg_colors()
+                time.sleep(0)
+        except Exception as e:
+            errors.append(repr(e))
+
+    def enabler():
+        try:
+            barrier.wait(5)
+            time.sleep((seed % 5) * 0.0002)
+            term_image.enable_queries()
+        except Exception as e:
+            errors.append(repr(e))
+        finally:
+            done.set()
+
+    with YieldInjector(seed + 1) as inj:
+        ths = [threading.Thread(target=reader) for _ in range(n)] + [threading.Thread(target=enabler)]
+        for t in ths:
+            t.start()
+        for t in ths:
+            t.join(30)
+    res.count("yield-injection line events", inj.events)
+    if errors or any(t.is_alive() for t in ths):
+        done.set()
+        res.inconclusive.append("enable race %s: %s" % (seed, errors[:2] or "a thread did not finish"))
+        return
+    res.count("enable_queries() calls racing with memoized reads")
+    got = (tuple(utils.get_terminal_name_version()), tuple(utils.get_fg_bg_colors()))
+    want = ((p.name.lower(), p.version), (tuple(p.fg), tuple(p.bg)))
+    if got != want:
+        res.violation("C15:stale-query-result", "after enable_queries() returned (other threads were reading meanwhile): name/version and colours %r, the terminal says %r -- a result obtained while queries were disabled is still served" % (got, want), case)
 
 
 def run_shard(shard, env):
